@@ -94,13 +94,22 @@ impl Property for C18 {
             kind: PlanKind::Random { cases, max_len: 1200 },
             knobs: Knobs { max_nodes, ..Default::default() },
         };
+        // chains of 1 000 .. 100 000 nested elements, each case in a child process (see deep_chain)
+        let deep = |cases| Plan {
+            name: "deep-chain",
+            kind: PlanKind::Random { cases, max_len: 64 },
+            knobs: Knobs { max_nodes: 24, variant: 1, ..Default::default() },
+        };
         match tier {
-            Tier::Quick => vec![mk("trees", 300_000, 24)],
-            Tier::Thorough => vec![mk("trees", 1_500_000, 24), mk("trees-big", 60_000, 100)],
+            Tier::Quick => vec![mk("trees", 300_000, 24), deep(32)],
+            Tier::Thorough => vec![mk("trees", 1_500_000, 24), mk("trees-big", 60_000, 100), deep(400)],
         }
     }
 
     fn check(&self, src: &mut Src, ctx: &mut Ctx) -> Verdict {
+        if ctx.knobs.variant == 1 {
+            return deep_chain(src, ctx);
+        }
         let mut o = TreeOpts::xml(ctx.knobs.max_nodes);
         o.alpha = Alpha::Space;
         o.attr_alpha = Alpha::Tiny;
@@ -194,6 +203,23 @@ impl Property for C18 {
             }
             ctx.label("xml_space_value_that_only_looks_like_preserve");
         }
+        // (late draws) text made only of characters at or below U+0020 that are NOT XML whitespace
+        // (form feed, vertical tab, NUL, unit separator …; only the API can put them there)
+        let texts: Vec<usize> = all.iter().copied().filter(|n| sim.model.nodes[*n].alive && matches!(&sim.model.nodes[*n].val, MVal::Text(_))).collect();
+        if !texts.is_empty() && src.ratio(1, 3) {
+            let t = texts[src.choice_big(texts.len())];
+            let v = ["\u{c}", " \u{b} ", "\u{1f}", "\0", "\u{1c}\n", "\u{8}\t", "\u{c}\u{c}"][src.choice(7)];
+            let op = crate::hist::Op::TextSet(t, v.to_string());
+            let eff = crate::props::c05::apply_model(&mut sim.model, &op);
+            sim.grow();
+            let hs = sim.h.clone();
+            let hf = move |i: usize| hs[i].expect("unbound");
+            crate::hist::exec(&mut sim.xot, &op, &hf);
+            if let Err(er) = sim.compare(&eff) {
+                return Verdict::Fail(format!("harness: setting a control-character text: {}", er));
+            }
+            ctx.label("control_character_text");
+        }
         let to_go = removable(&sim.model, start);
         let ws_total = sim
             .model
@@ -235,4 +261,69 @@ impl Property for C18 {
         let _ = AElem::default();
         Verdict::Pass
     }
+}
+
+/// plan deep-chain: "all trees" includes deep ones. A chain of `depth` nested elements with a
+/// whitespace-only text node beside the child element at three levels and xml:space="preserve" /
+/// "default" at two generated levels. The call runs in a child process (this binary, subcommand
+/// deep-c18), because running out of stack cannot be caught in-process; the child checks which of
+/// the three text nodes are left. Harness code on this path is iterative. The child is a crate of its
+/// own (harness/deep) that depends on xot only and is built WITHOUT optimisation: optimised code turns
+/// simple recursion into loops or tiny frames, a debug build (what `cargo test` and `cargo run` give a
+/// user) does not. The call runs on a thread with Rust's default thread stack (2 MiB).
+fn deep_chain(src: &mut Src, ctx: &mut Ctx) -> Verdict {
+    let depth = 1000 + src.choice_big(99_001);
+    // 0 = no such attribute; otherwise the level that carries it
+    let preserve_at = if src.bool() { 1 + src.choice_big(depth) } else { 0 };
+    let default_at = if src.bool() { 1 + src.choice_big(depth) } else { 0 };
+    ctx.fingerprint(&(depth, preserve_at, default_at));
+    ctx.rendering(|| format!("chain of {} elements, xml:space=preserve at level {}, xml:space=default at level {} (0 = none)", depth, preserve_at, default_at));
+    ctx.nontrivial = depth >= 20_000;
+    let exe = deep_binary();
+    let out = std::process::Command::new(exe).arg(depth.to_string()).arg(preserve_at.to_string()).arg(default_at.to_string()).output();
+    match out {
+        Err(e) => Verdict::Fail(format!("harness: cannot start the child process: {}", e)),
+        Ok(o) => match o.status.code() {
+            Some(0) => Verdict::Pass,
+            Some(3) => Verdict::Fail(format!("chain of depth {}: {}", depth, String::from_utf8_lossy(&o.stdout).trim())),
+            other => Verdict::Fail(format!(
+                "remove_insignificant_whitespace on a chain of {} nested elements ended the process ({}): {}",
+                depth,
+                match other {
+                    Some(c) => format!("exit code {}", c),
+                    None => "killed by a signal, e.g. stack overflow".to_string(),
+                },
+                String::from_utf8_lossy(&o.stderr).lines().last().unwrap_or("").trim()
+            )),
+        },
+    }
+}
+
+/// the child binary (harness/deep, depends on xot only), built once per run in the dev profile from the
+/// current tree of the xot dependency; a build failure is inconclusive (exit 2), never a violation
+fn deep_binary() -> std::path::PathBuf {
+    static BUILT: std::sync::OnceLock<std::path::PathBuf> = std::sync::OnceLock::new();
+    BUILT
+        .get_or_init(|| {
+            let dir = std::path::Path::new(env!("CARGO_MANIFEST_DIR")).join("deep");
+            let st = std::process::Command::new("cargo")
+                .arg("build")
+                .arg("--offline")
+                .arg("-q")
+                .arg("--manifest-path")
+                .arg(dir.join("Cargo.toml"))
+                .arg("--target-dir")
+                .arg(dir.join("target"))
+                .env("CARGO_NET_OFFLINE", "true")
+                .stdout(std::process::Stdio::null())
+                .stderr(std::process::Stdio::null())
+                .status();
+            let bin = dir.join("target").join("debug").join("xvf-deep");
+            if !matches!(st, Ok(s) if s.success()) || !bin.exists() {
+                eprintln!("INCONCLUSIVE: cannot build {} (cargo build --offline, dev profile)", dir.display());
+                std::process::exit(2);
+            }
+            bin
+        })
+        .clone()
 }
